@@ -1294,6 +1294,13 @@ fn prov_labels() -> Vec<(&'static str, &'static str)> {
         ("GeneralTransactionMetadata", "json_metadata_text"), ("AuxiliaryData", "json_aux_text"),
     ]
 }
+// the three free JSON -> metadatum converters: ONE bounded field (text / byte string of 63, 64, 65, 128 bytes, 64 / 66 bytes in
+// 2-byte code points) in ONE position (k % 6: value, list item, map key, map value, nested key, nested value), everything else
+// short; k / 6 % 6 = length, k / 36 % 2 = text / byte string: 72 cases per converter, all on every run
+fn conv_labels() -> Vec<(&'static str, &'static str)> {
+    vec![("GeneralTransactionMetadata", "json_conv_no_conversions"), ("GeneralTransactionMetadata", "json_conv_basic_conversions"),
+         ("GeneralTransactionMetadata", "json_conv_detailed_schema"), ("AuxiliaryData", "json_conv_into_aux")]
+}
 fn dec<T, E>(r: Result<T, E>) -> Result<T, ()> { r.map_err(|_| ()) }
 /// None = unknown label; Some(Err) = the decoder refused that spelling; Some(Ok(bytes)) = the container's bytes
 fn prov(ty: &str, label: &str, k: u64) -> Option<Result<Vec<u8>, ()>> {
@@ -1630,6 +1637,43 @@ fn prov(ty: &str, label: &str, k: u64) -> Option<Result<Vec<u8>, ()>> {
                 "json_relay" => { let r = if (k / 8) % 2 == 0 { Relay::new_single_host_name(&SingleHostName::new(Some(1), &DNSRecordAorAAAA::new(tmarker.to_string()).unwrap())) }
                                           else { Relay::new_multi_host_name(&MultiHostName::new(&DNSRecordSRV::new(tmarker.to_string()).unwrap())) };
                     let t = new_text(g, 128); js(r.to_json()).and_then(|j| dec(Relay::from_json(&j.replace(tmarker, &t)))).map(|x| x.to_bytes()) }
+                l if l.starts_with("json_conv_") => {
+                    let pos = k % 6; let lv = (k / 6) % 6; let bytes_kind = (k / 36) % 2 == 1;
+                    let n = [63usize, 64, 65, 128, 64, 66][lv as usize];
+                    let schema = match l { "json_conv_no_conversions" => MetadataJsonSchema::NoConversions, "json_conv_basic_conversions" => MetadataJsonSchema::BasicConversions,
+                                           "json_conv_detailed_schema" => MetadataJsonSchema::DetailedSchema,
+                                           _ => [MetadataJsonSchema::NoConversions, MetadataJsonSchema::BasicConversions, MetadataJsonSchema::DetailedSchema][((k / 72) % 3) as usize] };
+                    let detailed = if let MetadataJsonSchema::DetailedSchema = schema { true } else { false };
+                    let txt = text_of_bytes(g, n, if lv >= 4 { 2 } else { 1 });
+                    let hx = hex::encode(g.bytes(n));
+                    let json = if detailed {
+                        let leaf = if bytes_kind { format!("{{\"bytes\":\"{}\"}}", hx) } else { format!("{{\"string\":\"{}\"}}", txt) };
+                        match pos {
+                            0 => leaf,
+                            1 => format!("{{\"list\":[{{\"int\":1}},{}]}}", leaf),
+                            2 => format!("{{\"map\":[{{\"k\":{},\"v\":{{\"int\":1}}}}]}}", leaf),
+                            3 => format!("{{\"map\":[{{\"k\":{{\"int\":1}},\"v\":{}}}]}}", leaf),
+                            4 => format!("{{\"list\":[{{\"map\":[{{\"k\":{},\"v\":{{\"int\":2}}}}]}}]}}", leaf),
+                            _ => format!("{{\"map\":[{{\"k\":{{\"string\":\"a\"}},\"v\":{{\"list\":[{}]}}}}]}}", leaf),
+                        }
+                    } else {
+                        // NoConversions has no byte strings: "0x.." stays a TEXT there (made n or n-1 bytes long)
+                        let no_conv = if let MetadataJsonSchema::NoConversions = schema { true } else { false };
+                        let t = if !bytes_kind { txt } else if no_conv { format!("0x{}", hex::encode(g.bytes((n - 2) / 2))) } else { format!("0x{}", hx) };
+                        match pos {
+                            0 => format!("\"{}\"", t),
+                            1 => format!("[1,\"{}\"]", t),
+                            2 => format!("{{\"{}\":1}}", t),
+                            3 => format!("{{\"k\":\"{}\"}}", t),
+                            4 => format!("{{\"a\":[{{\"{}\":2}}]}}", t),
+                            _ => format!("[{{\"a\":[\"{}\"]}}]", t),
+                        }
+                    };
+                    dec(encode_json_str_to_metadatum(json, schema)).map(|md| {
+                        let mut m = GeneralTransactionMetadata::new(); m.insert(&bn(7), &md);
+                        if l == "json_conv_into_aux" { let mut a = AuxiliaryData::new(); a.set_metadata(&m); a.to_bytes() } else { m.to_bytes() }
+                    })
+                }
                 "json_metadata_text" | "json_aux_text" => {
                     let mut m = GeneralTransactionMetadata::new(); m.insert(&bn(7), &TransactionMetadatum::new_text(tmarker.to_string()).unwrap());
                     let t = new_text(g, 64);
@@ -2319,6 +2363,15 @@ fn gen(dir: &str) {
         let mut ks: Vec<u64> = (0..(if thorough { 96u64 } else { 16 })).collect();
         ks.push(r.next() % 4096);
         for k in ks {
+            let case = format!("api {} {} {}", ty, label, k);
+            let res = run_line(&case);
+            out.emit(&case, &res);
+        }
+    }
+    // 2d. the free JSON -> metadatum converters: every position x length x kind, always
+    for (ty, label) in conv_labels() {
+        let top = if label == "json_conv_into_aux" { 216u64 } else { 72 };
+        for k in 0..top {
             let case = format!("api {} {} {}", ty, label, k);
             let res = run_line(&case);
             out.emit(&case, &res);
